@@ -91,6 +91,8 @@ func VerifRun_C04d() {
 var c04eFiles = [][2]string{
 	{"function Fo\x01(n) return n end\nSe\x02 = { re\x03 = 3 }\nlocal pad = 1\n", "print(Fo\x01(1))\nlocal s = Se\x02.re\x03\nlocal t = Se\x02\nprint(s, t, Fo\x01)\n"},
 	{"local M = {}\nM.fo\x01 = 1\nfunction M.ba\x02(x) return x end\nreturn M\n", "local m = require(\"a\")\nprint(m.fo\x01, m.ba\x02(2))\nm.ba\x02(3)\n"},
+	// members added to a global table from another file
+	{"Co\x01 = {}\nlocal pad = 1\n", "\n\nCo\x01.ex\x02 = 2\nfunction Co\x01.re\x03(x) return x end\nprint(Co\x01.ex\x02, Co\x01.re\x03(1))\n"},
 	// a module that returns a table literal directly
 	{"return { wi\x01 = 800, na\x02 = \"demo\", co\x03 = { gr\x01 = 1 }, on\x02 = function(v) return v end }\n", "local c = require(\"a\")\nprint(c.wi\x01, c.na\x02, c.co\x03.gr\x01)\nc.on\x02(1)\n"},
 }
@@ -139,6 +141,25 @@ func VerifRun_C04e() {
 						}
 						if x, ok := c04text(dsrc, d.Loc.StartLine, d.Loc.StartColumn, d.Loc.EndColumn); !ok || x != name {
 							verifViolation("", "a definition range (possibly in another file) does not cover exactly the identifier it names")
+						}
+					}
+					vsr := vpCopyVS(vs)
+					for _, d := range p.FindReferences(files[fi], &vsr, common.CRSReference) {
+						dsrc := srcs[0]
+						if d.StrFile == files[1] {
+							dsrc = srcs[1]
+						} else if d.StrFile != files[0] {
+							continue
+						}
+						if x, ok := c04text(dsrc, d.Loc.StartLine, d.Loc.StartColumn, d.Loc.EndColumn); !ok || x != name {
+							verifObserve("bad-reference", name+" -> "+d.StrFile+" "+strconv.Itoa(d.Loc.StartLine)+":"+strconv.Itoa(d.Loc.StartColumn)+"-"+strconv.Itoa(d.Loc.EndColumn)+" "+x)
+							class := ""
+							if ok && len(x) > 0 && x[0] == '{' && d.Loc.StartLine == d.Loc.EndLine {
+								// known defect: a member of a table literal that a module returns directly is listed
+								// with the range of the whole constructor
+								class = "C04-member-reference-is-constructor"
+							}
+							verifViolation(class, "a reference range (possibly in another file) does not cover the identifier in the document it is reported for")
 						}
 					}
 					for _, d := range p.FindReferences(files[fi], &vs, common.CRSHighlight) {
